@@ -1,4 +1,5 @@
 import NdnModel.Basic
+import NdnModel.DriverMain
 import NdnModel.Drv.C18
 import NdnModel.PyDict
 import NdnModel.Shrink
